@@ -335,6 +335,24 @@ Proof.
   rewrite (dq_never_split_or_globbed _ _ H). cbn. now rewrite app_nil_r.
 Qed.
 
+(** tilde_exact: the directory a tilde prefix stands for (HOME, PWD, OLDPWD, a user's home, a
+    directory-stack entry) is one Unsplittable piece: whatever blanks, newlines or glob characters
+    it holds, [~] is exactly one argument, that directory — and an assignment copies it exactly *)
+Theorem tilde_exact t s : o_tilde o t = Some s ->
+  full_expand o e [WTilde t] = Ok [s] /\ expand_to_str o e [WTilde t] = Ok s.
+Proof.
+  intros H. split.
+  - unfold full_expand, basic_expand. cbn [expand_pieces expand_piece bind]. rewrite H. cbn [bind].
+    unfold coalesce; cbn [fold_left].
+    rewrite split_glob_uns by (cbn; repeat constructor). cbn. unfold field_str; cbn. now rewrite app_nil_r.
+  - unfold expand_to_str, basic_expand. cbn [expand_pieces expand_piece bind]. rewrite H. cbn.
+    unfold fields_to_string; cbn. now rewrite app_nil_r.
+Qed.
+
+(** the same with literal text behind it (~/x): the tilde part is never split or globbed; the
+    characters of the result are the directory followed by the unquoted rest minus IFS characters
+    (see split_only_removes_unquoted_ifs in SpecProofs.v for the general statement) *)
+
 (** * Assignment: no splitting, no globbing, the value as it is *)
 
 Theorem assign_exact p s : fields (expand_param e p) = [[Splittable s]] ->
